@@ -25,7 +25,7 @@ EXPLANATION = (
     "trimming never edits in place a shard or cview list shared with the wrapped (possibly cached) canvas - otherwise a re-render of the unchanged child has a different size."
     ' Added after seed round 3: (9) FOCUS-FWD - every function that receives `focus` hands it on to each callee that takes it, so render(), rows() and pack() agree on the size of the focused rendering; (10) the Scrollable clamp rule of C20 (an unclamped position trims more rows than exist); (11) ACCUM - the running column of shards_trim_sides and the space budget of Columns.column_widths advance in every continuing iteration; (12) BarGraph.hlines_display collapses h-lines by the row it stores.'
     ' Round 4: (13) LOOPFRESH, (14) segment width measured over its own offsets (C03.13), (15) scroll-bar parts (C20.3).'
-    " Round-4 triage: (17) widget text is cut into lines at the layout's separator only - no str.splitlines() in the widget / layout / canvas layers; split()/count() in a measurement use the newline constant of the layout."
+    " Round-4 triage: (17) widget text is cut into lines at the layout's separator only - no str.splitlines() in the widget / layout / canvas layers; split()/count() in a measurement use the newline constant of the layout. Round 5: (18) Frame.render cuts each part with its own trim."
 )
 NOT_DECIDED = (
     "That composed canvases actually have the requested size for all trees/sizes/texts (value semantics of shards, layout and padding); truthfulness of sizing(); wide-character column "
@@ -308,6 +308,37 @@ def rule_line_separator(ctx: Ctx) -> RuleResult:
     return rr
 
 
+def rule_frame_trims(ctx: Ctx) -> RuleResult:
+    """Frame.render() gets ((header trim, footer trim), (header rows, footer rows)) from frame_top_bottom() and draws a
+    header / footer that has to be cut through a temporary Filler of exactly its own trim: the header's Filler gets
+    the first element of the first pair, the footer's the second.  With the other part's trim (a copy-paste of the
+    header block) the three parts no longer add up to maxrow."""
+    p = ctx.p
+    rr = RuleResult("SIB", "C01.18", "Frame.render cuts the header with the header's trim and the footer with the footer's trim (the unpacking order of frame_top_bottom())", floor=2)
+    fi = p.func("urwid.widget.frame.Frame.render")
+    role = {}
+    for n in fi.own_nodes():
+        if isinstance(n, ast.Assign) and isinstance(n.value, ast.Call) and callee_name(n.value) == "frame_top_bottom" and isinstance(n.targets[0], ast.Tuple) and len(n.targets[0].elts) == 2 and isinstance(n.targets[0].elts[0], ast.Tuple):
+            trims = n.targets[0].elts[0].elts
+            if len(trims) == 2 and all(isinstance(e, ast.Name) for e in trims):
+                role = {"header": trims[0].id, "footer": trims[1].id}
+    if not role:
+        raise AnalysisError("Frame.render: the unpacking `(htrim, ftrim), (hrows, frows) = self.frame_top_bottom(...)` was not found")
+    for c in fi.own_nodes():
+        if not (isinstance(c, ast.Call) and isinstance(c.func, ast.Attribute) and c.func.attr == "render" and isinstance(c.func.value, ast.Call) and callee_name(c.func.value) == "Filler" and c.func.value.args):
+            continue
+        inner = ast.unparse(c.func.value.args[0])
+        part = next((x for x in role if inner.endswith("." + x) or inner.endswith("._" + x)), None)
+        if part is None or not c.args or not isinstance(c.args[0], ast.Tuple) or len(c.args[0].elts) != 2:
+            continue
+        rows = c.args[0].elts[1]
+        ok = isinstance(rows, ast.Name) and rows.id == role[part]
+        rr.inst(f"{part}: {norm(c, 50)}", True, {"part": part, "filler_rows": ast.unparse(rows), "own_trim": role[part]})
+        if not ok:
+            rr.add(finding("SIB", fi, c, f"the cut {part} is drawn through a Filler of `{ast.unparse(rows)}` rows instead of its own trim `{role[part]}`: when header trim and footer trim differ the parts of the frame add up to another height than maxrow (WidgetError 'rendered (20 x 1) canvas when passed size (20, 4)')", construct=f"{part} cut with {ast.unparse(rows)}"))
+    return rr
+
+
 def run(ctx: Ctx):
     p = ctx.p
     mods = modules(p)
@@ -328,6 +359,7 @@ def run(ctx: Ctx):
         _scrollbar_parts(ctx),
         _segment_positive(ctx),
         rule_line_separator(ctx),
+        rule_frame_trims(ctx),
     ]
 
 
@@ -336,6 +368,7 @@ _COLS = "urwid/widget/columns.py"
 _CANV = "urwid/canvas.py"
 _TEXT = "urwid/widget/text.py"
 MUTANTS = [
+    Mut("frame-footer-cut-with-header-trim", "urwid/widget/frame.py", "Frame.render", "foot = Filler(self.footer, VAlign.BOTTOM).render((maxcol, ftrim), focus and self.focus_part == \"footer\")", "foot = Filler(self.footer, VAlign.BOTTOM).render((maxcol, htrim), focus and self.focus_part == \"footer\")", "SIB|widget.frame.Frame.render"),
     Mut("text-pack-splitlines", _TEXT, "Text.pack", 'text.split("\\n")', "text.splitlines()", "SIB|widget.text.Text.pack"),
     Mut("twin-text-pack-split-keyword", _TEXT, "Text.pack", 'text.split("\\n")', 'text.split(sep="\\n")', twin=True),
     Mut("hlines-dedup-on-float", "urwid/widget/bar_graph.py", "BarGraph.hlines_display", "            if i == last_i:\n                continue", "            if rh == last_i:\n                continue", "PAIR|widget.bar_graph.BarGraph.hlines_display"),
